@@ -15,6 +15,10 @@
        domain): every valid input with at most 19 significant digits whose Number satisfies
        [fast_path_applies] is parsed to exactly RN (dec_value ...) in all eight configurations and both
        build modes; and the complete functional description of the fast path ([try_fast_path_eq]);
+     - END TO END for the non-compact configurations whenever Eisel-Lemire is definite
+       ([parse_float_lemire_definite_correct], from [lemire_sound], props/C11.v) - so with the two
+       theorems around it the end-to-end statement is CLOSED for every valid input (exponent not
+       saturated) that does not reach the big-integer path, in all eight configurations;
      - END TO END for the compact configurations whenever Bellerophon is definite
        ([parse_float_compact_definite_correct], from [bellerophon_sound], props/C11.v): valid input,
        exponent not saturated, fast path not applicable, stage definite => exactly RN (dec_value ..);
@@ -34,8 +38,8 @@
 From Coq Require Import ZArith QArith List Bool Reals.
 From Coq Require Import Floats.SpecFloat.
 From Flocq Require Import Core.Core.
-From ML Require Import base.RustSem model.Fmt model.FloatOps model.Number model.Parse model.Vec model.Bigint model.Slow model.Bellerophon model.Top spec.Decimal spec.Round spec.RoundFacts spec.DigitsSuffice spec.RneZ
-  gen.Consts gen.Tables gen.BTables gen.PowDump proofs.ParseFacts proofs.Glue proofs.NoUB proofs.FastPathFacts proofs.EndToEnd proofs.BellFacts5 proofs.EndToEnd2 proofs.LimbVal proofs.RoundingFactsZ proofs.NumFacts proofs.TruncFacts proofs.TruncFacts2 proofs.SlowFacts1 proofs.SlowFacts1b proofs.SlowFacts2 proofs.SlowFacts2b proofs.SlowFacts2c.
+From ML Require Import base.RustSem model.Fmt model.FloatOps model.Number model.Parse model.Vec model.Bigint model.Slow model.Bellerophon model.Lemire model.Top spec.Decimal spec.Round spec.RoundFacts spec.DigitsSuffice spec.RneZ
+  gen.Consts gen.Tables gen.BTables gen.PowDump proofs.ParseFacts proofs.Glue proofs.NoUB proofs.FastPathFacts proofs.EndToEnd proofs.BellFacts5 proofs.EndToEnd2 proofs.LemireFacts5 proofs.EndToEnd3 proofs.LimbVal proofs.RoundingFactsZ proofs.NumFacts proofs.TruncFacts proofs.TruncFacts2 proofs.SlowFacts1 proofs.SlowFacts1b proofs.SlowFacts2 proofs.SlowFacts2b proofs.SlowFacts2c.
 Import ListNotations.
 
 Open Scope Z_scope.
@@ -125,6 +129,35 @@ Theorem C02_parse_float_fast_correct :
          fast_path_applies f (parse_spec i fr e) = true ->
          parse_float c TABLES BT L f b i fr e = Ok (RN f (dec_value i fr e)).
 Proof. exact parse_float_fast_correct. Qed.
+
+Theorem C02_lemire_sound :
+  forall (f : format) (b : build) (n : number),
+         LemireFacts0.lfmt_ok f = true ->
+         0 <= nmant n < 2 ^ 64 ->
+         (many n = true -> 0 < nmant n /\ nmant n + 1 < 2 ^ 64) ->
+         exists fp : Num.extfloat,
+           lemire TABLES f b n = Ok fp /\
+           (0 <= Num.exp fp ->
+            compute_float TABLES f b (nexp n) (nmant n) = Ok fp /\
+            LemireFacts1.fields_ok f fp /\
+            rne_bits f (dec_num (nmant n) (nexp n)) (dec_den (nexp n)) (LemireFacts0.pack f fp) /\
+            (many n = true ->
+             compute_float TABLES f b (nexp n) (nmant n + 1) = Ok fp /\
+             rne_bits f (dec_num (nmant n + 1) (nexp n)) (dec_den (nexp n)) (LemireFacts0.pack f fp))).
+Proof. exact lemire_sound. Qed.
+
+Theorem C02_parse_float_lemire_definite_correct :
+  forall (c : config) (f : format) (b : build) (BT : btables) (L : limits) (i fr : list Z) 
+           (e : Z) (fp : Num.extfloat),
+         In c ALL_CONFIGS ->
+         compact c = false ->
+         f = F32 \/ f = F64 ->
+         valid_inputb i fr e = true ->
+         unsaturated i fr e ->
+         fast_path_applies f (parse_spec i fr e) = false ->
+         lemire TABLES f b (parse_spec i fr e) = Ok fp ->
+         0 <= Num.exp fp -> parse_float c TABLES BT L f b i fr e = Ok (RN f (dec_value i fr e)).
+Proof. exact parse_float_lemire_definite_correct. Qed.
 
 Theorem C02_bellerophon_sound :
   forall (f : format) (b : build) (w q : Z) (t : bool),
@@ -299,6 +332,8 @@ Print Assumptions C02_parse_number_value_bracket.
 Print Assumptions C02_try_fast_path_eq.
 Print Assumptions C02_fast_ok_all.
 Print Assumptions C02_parse_float_fast_correct.
+Print Assumptions C02_lemire_sound.
+Print Assumptions C02_parse_float_lemire_definite_correct.
 Print Assumptions C02_bellerophon_sound.
 Print Assumptions C02_parse_float_compact_definite_correct.
 Print Assumptions C02_scientific_exponent_spec.
